@@ -249,6 +249,21 @@ func faultOne(run *core.Run, sc *Scenario, w *World, from *Node, slot uint64, ch
 		if E > 0 && !hasNotify {
 			rep("engine-not-notified", "the payload was never passed to notify_new_payload")
 		}
+		// the queries verify_and_notify_new_payload prescribes for the fork, each exactly once (an engine that would
+		// answer a skipped query with invalid/error is an engine that did not approve the payload)
+		want := []string{"blockhash", "notify"}
+		if sb.Message.F >= refspec.Deneb {
+			want = []string{"blockhash", "versionedhashes", "notify"}
+		}
+		got := map[string]int{}
+		for _, call := range plainCalls {
+			got[call.Method]++
+		}
+		for _, m := range want {
+			if E > 0 && got[m] != 1 {
+				rep("engine-query-set/"+m, fmt.Sprintf("the specification consults the engine with %v for every %s payload; %q was made %d times (calls: %v, %d blob commitments)", want, refspec.ForkNames[sb.Message.F], m, got[m], methods(plainCalls), len(sb.Message.Body.BlobKZGCommitments)))
+			}
+		}
 	}
 	// every cancellation point
 	for i := 0; i < P; i++ {
